@@ -107,6 +107,10 @@ type world struct {
 type oneCase struct {
 	world
 	Req request `json:"req"`
+	// Rekey (16 bytes, optional): after the request was answered, the device is provisioned again under the same
+	// DevEUI with other root keys (NwkKey = Rekey, AppKey = AppKey xor Rekey) on a second handler, sends the same
+	// request built with its new keys, and is judged like the first.
+	Rekey evid.Hex `json:"rekey,omitempty"`
 }
 
 func keyOf(h evid.Hex) ref.Key {
@@ -595,12 +599,33 @@ func checkOne(c oneCase) evid.Outcome {
 	status, ans := serve(h, bodyOf(d, &c.Req))
 	v := judge(&c.world, &c.Req, status, ans, false)
 	class, nt := flowClass(&c.world, &c.Req)
-	if v.viol != "" {
-		return evid.Outcome{Violation: v.viol, Known: v.known, Class: class + "/" + v.result + "/violation" + v.known}
+	if v.viol != "" && v.known == "" {
+		return evid.Outcome{Violation: v.viol, Class: class + "/" + v.result + "/violation"}
+	}
+	if len(c.Rekey) == 16 && c.Req.Dev >= 0 && c.Req.Dev < len(c.Devices) && !(c.Req.Neg == negWrongKey && bytes.Equal(c.Req.WrongKey, c.Rekey)) {
+		w2 := world{Devices: append([]device{}, c.Devices...), KEKs: c.KEKs}
+		d2 := &w2.Devices[c.Req.Dev]
+		d2.NwkKey = append(evid.Hex{}, c.Rekey...)
+		app := make(evid.Hex, 16)
+		for i := range app {
+			app[i] = c.Rekey[i]
+			if i < len(d.AppKey) {
+				app[i] ^= d.AppKey[i]
+			}
+		}
+		d2.AppKey = app
+		st2, ans2 := serve(newHandler(&w2), bodyOf(d2, &c.Req))
+		if v2 := judge(&w2, &c.Req, st2, ans2, true); v2.viol != "" {
+			return evid.Fail("history: the request was first answered for DevEUI %016x with NwkKey %x, then the device was provisioned again with NwkKey %x AppKey %x (second handler) and sent the same request under its new keys: %s", uint64(d.DevEUI), []byte(d.NwkKey), []byte(d2.NwkKey), []byte(d2.AppKey), v2.viol)
+		}
+		class += "/reprovisioned"
 	}
 	// requests do not influence one another: the same request served again by the same handler gets the same answer
 	if status2, ans2 := serve(h, bodyOf(d, &c.Req)); status2 != status || !bytes.Equal(ans2, ans) {
 		return evid.Fail("the same %s request served a second time by the same handler is answered differently (an earlier request influenced a later one):\n first:  %d %s\n second: %d %s", c.Req.Flow, status, ans, status2, ans2)
+	}
+	if v.viol != "" {
+		return evid.Outcome{Violation: v.viol, Known: v.known, Class: class + "/" + v.result + "/violation" + v.known}
 	}
 	return evid.Outcome{NonTrivial: nt, Class: class + "/" + v.result}
 }
@@ -731,7 +756,11 @@ func genRequest(t *rapid.T, w *world, nets []uint32) request {
 
 func genOne(t *rapid.T) oneCase {
 	w, nets := genWorld(t, 1, 1)
-	return oneCase{world: w, Req: genRequest(t, &w, nets)}
+	c := oneCase{world: w, Req: genRequest(t, &w, nets)}
+	if rapid.Bool().Draw(t, "reprovision") {
+		c.Rekey = gen.Bytes(t, "rekey", 16)
+	}
+	return c
 }
 
 // ---------------------------------------------------------------------------
@@ -912,7 +941,9 @@ const ruleRequests = "rapid: one provisioned device (uniform 16-byte NwkKey/AppK
 	"DevNonce/RJCount), echoes JoinNonce, NetID = SenderID, DevAddr, DLSettings, RxDelay, CFList bytes; envelopes: clear 16-byte key when no KEK is configured for " +
 	"the label (NS label = SenderID, AS label per device), else KEKLabel = label and reference RFC 3394 unwrap; keys = reference SessionKeys10 (OptNeg clear) / " +
 	"SessionKeys11 (OptNeg set); for rejoin exactly two key sets are accepted: the 1.1 derivation, or the documented 1.0-style one (known finding K4); flipped bit / " +
-	"wrong key => MICFailed, unknown DevEUI => UnknownDevEUI, both without join-accept or keys; HomeNSReq => configured home NetID. Non-trivial: OptNeg set, or a KEK " +
+	"wrong key => MICFailed, unknown DevEUI => UnknownDevEUI, both without join-accept or keys; HomeNSReq => configured home NetID. Histories: the same request " +
+	"served a second time gets the same answer; in half of the cases the device is then provisioned again under the same DevEUI with other root keys on a second " +
+	"handler, sends the request under its new keys and is judged by the same oracle. Non-trivial: OptNeg set, or a KEK " +
 	"configured, or a rejoin, or a negative case."
 
 const ruleMalformed = "rapid: a valid join / rejoin / HomeNS request of the generator above, damaged in one way: random or JSON-looking garbage body, body cut at a " +
